@@ -116,6 +116,11 @@ def matrix_run(eng, n_test, n_trial, path, scenario):
                     return
     m1 = op.bilform_matrix(tests, trialsA, use_mp=use_mp)
     compare(m1, tests, trialsA, 'first call')
+    if n_test == n_trial:
+        # the SAME list object on both sides (what the default arguments do): the matrix is not symmetric - test and
+        # trial elements with equal end time but different start time, causal one way only
+        compare(op.bilform_matrix(tests, tests, use_mp=use_mp), tests, tests, 'same list object as test and trial')
+        compare(op.bilform_matrix(tests, use_mp=use_mp), tests, tests, 'trial list defaulted to the test list')
     if scenario != 'nocache':
         m2 = op.bilform_matrix(tests, trialsA, use_mp=use_mp)
         compare(m2, tests, trialsA, 'second call, same lists (%s cache)' % scenario)
@@ -302,6 +307,9 @@ def replay(rp):
                             for j, tr in enumerate(RR))
                     use_mp = path == 'pool'
                     if wrong(op.bilform_matrix(T, RA, use_mp=use_mp), T, RA):
+                        return True
+                    if n_test == n_trial and (wrong(op.bilform_matrix(T, T, use_mp=use_mp), T, T) or
+                                              wrong(op.bilform_matrix(T, use_mp=use_mp), T, T)):
                         return True
                     if scenario != 'nocache':
                         if scenario == 'corrupt':
